@@ -10,17 +10,16 @@
      mods     _ModuleCache.module_map: path -> PFile (content at parse time) | PPkg (child cache)
      cells    the concluded ImportedModule.pymodule cells: (importing module, imported name) -> target
      flist    _FileListCacher.files (None = not computed)
-     watched  FilteredResourceObserver.resources of PyCore.observer: path -> stored indicator.  rope's indicator
-              is the PAIR (modification time, size) (ChangeIndicator.get_indicator); the model keeps its
-              quotient: WNone (indicator None: "did not exist"), WCur (both components of the stored pair
-              equal the resource's current ones), WStale (a component differs, or the resource is gone).
-              A modification behind rope's back turns WCur into WStale ([xstep]): a rewrite of a file changes
-              the mtime, or the size, or both; adding, removing or renaming an entry changes the folder's
-              mtime (the folder's size does not tell: that much is rope's design).  This is DESIGN's
-              [indicator_sound] assumption; the harness realises each shape (new mtime + new size, OLD mtime +
-              new size as left by cp -p / rsync -t / two writes in one timestamp tick, new mtime + old size)
-              and computes the reference pair itself when abstracting the live watched set, so a weaker
-              indicator in the code shows up both as a correspondence mismatch and as a failing input.
+     watched  FilteredResourceObserver.resources of PyCore.observer: path -> stored indicator, None ("did not
+              exist") or the PAIR (modification time, size) of ChangeIndicator.get_indicator.  Modification times
+              are values of a logical clock ([clock], the next one): a change through rope or behind its back
+              stamps what it touches with the current time (a rewrite behind rope's back may keep the old time:
+              cp -p, rsync -t, two writes in one timestamp tick); a folder's time changes when an entry is added,
+              removed or renamed.  validate compares stored and current pairs.  DESIGN's [indicator_sound] is the
+              explicit hypothesis [ind_sound]: a watched resource whose current pair equals the stored one has
+              not been modified.  The harness abstracts real modification times to their ranks and computes the
+              reference pair itself.
+     clock    the next modification time
      cfg      the project preference automatic_soa, and which of the two proposed fixes the code has
               (proposed_fixes/C13-*.diff, now repo commits d932e8e / b19aaa7): both true = the current code
               ([code_cfg]), both false = the tree as found, kept to document the two fixed defects
@@ -68,12 +67,13 @@ Definition nonroot (p : path) : bool := match p with [] => false | _ => true end
 Definition child_of (r k : path) : bool := nonroot k && bool_decide (parent k = r).
 
 (* --------------------------------------------------------------------------------- contents *)
-Record content := Content { ctext : N; cok : bool; cimports : list N }.
+Record content := Content { ctext : N; cok : bool; cimports : list N; csize : N }.
 Global Instance content_eq_dec : EqDecision content.
 Proof. solve_decision. Defined.
-Definition empty_content : content := Content 0 true [].
+Definition empty_content : content := Content 0 true [] 0.
 
-Inductive node := File (c : content) | Dir.
+(* a node carries its modification time: a value of the logical clock of the state *)
+Inductive node := File (c : content) (mt : N) | Dir (mt : N).
 Global Instance node_eq_dec : EqDecision node.
 Proof. solve_decision. Defined.
 Notation disk := (gmap (list N) node).
@@ -81,9 +81,24 @@ Notation disk := (gmap (list N) node).
 Definition dexists (d : disk) (p : path) : bool :=
   match p with [] => true | _ => bool_decide (is_Some (d !! p)) end.
 Definition disdir (d : disk) (p : path) : bool :=
-  match p with [] => true | _ => match d !! p with Some Dir => true | _ => false end end.
-Definition isfile_node (n : node) : bool := match n with File _ => true | Dir => false end.
-Definition isdir_node (n : node) : bool := match n with File _ => false | Dir => true end.
+  match p with [] => true | _ => match d !! p with Some (Dir _) => true | _ => false end end.
+Definition isfile_node (n : node) : bool := match n with File _ _ => true | Dir _ => false end.
+Definition isdir_node (n : node) : bool := match n with File _ _ => false | Dir _ => true end.
+(* what a node is, apart from its modification time *)
+Definition kind_of (n : node) : option content := match n with File c _ => Some c | Dir _ => None end.
+Definition node_mt (n : node) : N := match n with File _ t | Dir t => t end.
+Definition set_node_mt (t : N) (n : node) : node := match n with File c _ => File c t | Dir _ => Dir t end.
+(* os.utime / the mtime update of a folder whose entries change; the root is not a key *)
+Definition set_mt (t : N) (r : path) (d : disk) : disk := alter (set_node_mt t) r d.
+(* touch everything at and below q *)
+Definition touch_under (t : N) (q : path) (d : disk) : disk :=
+  map_imap (fun k n => Some (if under q k then set_node_mt t n else n)) d.
+
+(* ChangeIndicator.get_indicator: the pair (modification time, size).  [full = false] is the weaker
+   indicator "modification time only" (it only documents why the size component is needed). *)
+Notation ind := (N * N)%type.
+Definition ind_of_node (full : bool) (n : node) : ind :=
+  (node_mt n, if full then match n with File c _ => csize c | Dir _ => 0%N end else 0%N).
 
 (* the set of files (Project.get_files; ignored-resource patterns are outside the model) *)
 Definition files_of (d : disk) : gset (list N) :=
@@ -99,16 +114,16 @@ Definition children (d : disk) (r : path) : gset (list N) :=
   dom (filter (fun kv : list N * node => child_of r kv.1 && is_submodule d kv.1 = true) d).
 
 (* subtree operations *)
-Definition remove_tree (p : path) (d : disk) : disk :=
-  filter (fun kv : list N * node => under p kv.1 = false) d.
+Definition remove_tree {A} (p : path) (d : gmap (list N) A) : gmap (list N) A :=
+  filter (fun kv : list N * A => under p kv.1 = false) d.
 Definition swapf (p q k : path) : path :=
   match strip p k with
   | Some r => q ++ r
   | None => match strip q k with Some r => p ++ r | None => k end
   end.
 (* the subtree at p becomes the subtree at q (q free, p and q not nested) *)
-Definition move_tree (p q : path) (d : disk) : disk :=
-  filter (fun kv : list N * node => under p kv.1 = false) (kmap (swapf p q) d).
+Definition move_tree {A} (p q : path) (d : gmap (list N) A) : gmap (list N) A :=
+  filter (fun kv : list N * A => under p kv.1 = false) (kmap (swapf p q) d).
 
 (* the shape of the tree (which paths exist, and whether each is a folder): all that module lookup sees *)
 Notation shape_t := (gmap (list N) bool).
@@ -168,82 +183,100 @@ Definition find_module (sh : shape_t) (folder : path) (n : N) : option (list N) 
 Inductive parsed := PFile (c : content) | PPkg (ch : option (gset (list N))).
 Global Instance parsed_eq_dec : EqDecision parsed.
 Proof. solve_decision. Defined.
-Inductive wstate := WNone | WCur | WStale.
-Global Instance wstate_eq_dec : EqDecision wstate.
-Proof. solve_decision. Defined.
 
 (* the project preference automatic_soa + the variant of the code:
    fix_move    FilteredResourceObserver._calculate_new_resource no longer calls get_resource
                (proposed_fixes/C13-folder-move-stale-watch.diff)
    fix_forget  PyCore forgets all concluded data at every creation / move / removal and at validate
-               (proposed_fixes/C13-forget-concluded-data-on-structure-change.diff) *)
-Record config := Config { soa_on : bool; fix_move : bool; fix_forget : bool }.
+               (proposed_fixes/C13-forget-concluded-data-on-structure-change.diff)
+   ind_size    the indicator has its size component (true in every version of the code; false only
+               documents, with C13_mtime_only_indicator_refuted, why validate needs it) *)
+Record config := Config { soa_on : bool; fix_move : bool; fix_forget : bool; ind_size : bool }.
 Global Instance config_eq_dec : EqDecision config.
 Proof. solve_decision. Defined.
 
 (* the code as it is now (repo commits d932e8e and b19aaa7 are the two fixes) *)
-Definition code_cfg (soa_pref : bool) : config := Config soa_pref true true.
+Definition code_cfg (soa_pref : bool) : config := Config soa_pref true true true.
 
 Record state := State {
   dsk : gmap (list N) node;
   mods : gmap (list N) parsed;
   cells : gmap (list N * N) (list N);
   flist : option (gset (list N));
-  watched : gmap (list N) wstate;
-  cfg : config
+  watched : gmap (list N) (option ind);   (* FilteredResourceObserver.resources: None = "did not exist" *)
+  cfg : config;
+  clock : N                                (* the next modification time *)
 }.
 Definition soa (s : state) : bool := soa_on (cfg s).
 
-Definition init (d : disk) (c : config) : state := State d ∅ ∅ None ∅ c.
+Definition init_at (d : disk) (c : config) (t : N) : state := State d ∅ ∅ None ∅ c t.
+Definition init (d : disk) (c : config) : state := init_at d c 0.
 (* a brand-new project opened on the same directory *)
-Definition fresh (s : state) : state := init (dsk s) (cfg s).
+Definition fresh (s : state) : state := init_at (dsk s) (cfg s) (clock s).
 
 Definition in_mods (s : state) (r : path) : bool := bool_decide (is_Some (mods s !! r)).
 Definition is_watched (s : state) (r : path) : bool := bool_decide (is_Some (watched s !! r)).
 
+(* the current indicator of a resource (None: it does not exist); the root is not a key and is never
+   watched in the modelled histories *)
+Definition cur_ind (c : config) (d : disk) (r : path) : option ind :=
+  match r with [] => Some (0%N, 0%N) | _ => ind_of_node (ind_size c) <$> d !! r end.
 (* FilteredResourceObserver.add_resource / the indicator stored after a callback *)
-Definition stampw (d : disk) (r : path) : wstate := if dexists d r then WCur else WNone.
+Definition stampw (s : state) (r : path) : option ind := cur_ind (cfg s) (dsk s) r.
+(* the stored indicator of a watched resource differs from the current one (or the resource is gone) *)
+Definition out_of_date (s : state) (r : path) : bool :=
+  match watched s !! r with
+  | Some (Some i) => negb (bool_decide (cur_ind (cfg s) (dsk s) r = Some i))
+  | _ => false
+  end.
 
 (* --------------------------------------------------------- changes behind rope's back: disk only *)
 Inductive xop :=
-| XWrite (p : path) (c : content)
+| XWrite (p : path) (c : content) (keep_mtime : bool)   (* keep_mtime: cp -p, rsync -t, same timestamp tick *)
 | XCreate (p : path) (isdir : bool)
 | XRemove (p : path)
 | XMove (p q : path).
 
 Definition xguard (d : disk) (x : xop) : bool :=
   match x with
-  | XWrite p _ => match d !! p with Some (File _) => true | _ => false end
+  | XWrite p _ _ => match d !! p with Some (File _ _) => true | _ => false end
   | XCreate p _ => nonroot p && negb (dexists d p) && disdir d (parent p)
   | XRemove p => nonroot p && dexists d p
   | XMove p q => nonroot p && nonroot q && dexists d p && negb (dexists d q) && disdir d (parent q)
                  && negb (under p q) && negb (under q p)
   end.
 
-Definition xdisk (d : disk) (x : xop) : disk :=
+(* the change of the tree at time t: a rewritten file gets the mtime t unless the old one is kept; a folder
+   whose entries change gets the mtime t; what is moved is touched as well (mv keeps modification times: a
+   moved file whose (mtime, size) happens to be the stored indicator of the destination path would be
+   invisible to rope, so the harness touches what it moves behind rope's back; through rope every
+   watched resource at or below the destination is re-stamped or dropped anyway) *)
+Definition xdisk (t : N) (d : disk) (x : xop) : disk :=
   match x with
-  | XWrite p c => <[p := File c]> d
-  | XCreate p isdir => <[p := if isdir then Dir else File empty_content]> d
-  | XRemove p => remove_tree p d
-  | XMove p q => move_tree p q d
+  | XWrite p c keep =>
+      match d !! p with
+      | Some (File _ mt) => <[p := File c (if keep then mt else t)]> d
+      | _ => d
+      end
+  | XCreate p isdir => set_mt t (parent p) (<[p := if isdir then Dir t else File empty_content t]> d)
+  | XRemove p => set_mt t (parent p) (remove_tree p d)
+  | XMove p q => set_mt t (parent q) (set_mt t (parent p) (touch_under t q (move_tree p q d)))
   end.
 
-(* the resources of which at least one component of the (mtime, size) indicator changes (a rewritten file:
-   mtime or size; POSIX: a folder's mtime changes when an entry is added, removed or renamed in it) *)
+(* the resources whose node may change (a rewritten file; POSIX: a folder's mtime changes when an entry is
+   added, removed or renamed in it) *)
 Definition xtouch (x : xop) (r : path) : bool :=
   match x with
-  | XWrite p _ => bool_decide (r = p)
+  | XWrite p _ _ => bool_decide (r = p)
   | XCreate p _ => bool_decide (r = p) || bool_decide (r = parent p)
   | XRemove p => under p r || bool_decide (r = parent p)
   | XMove p q => under p r || under q r || bool_decide (r = parent p) || bool_decide (r = parent q)
   end.
 
-Definition stale_of (w : wstate) : wstate := match w with WCur => WStale | _ => w end.
-
+(* a change behind rope's back: the tree and the clock, nothing else *)
 Definition xstep (s : state) (x : xop) : state :=
   if xguard (dsk s) x then
-    State (xdisk (dsk s) x) (mods s) (cells s) (flist s)
-          (map_imap (fun r w => Some (if xtouch x r then stale_of w else w)) (watched s)) (cfg s)
+    State (xdisk (clock s) (dsk s) x) (mods s) (cells s) (flist s) (watched s) (cfg s) (N.succ (clock s))
   else s.
 
 (* ------------------------------------------------------- the observers' reaction to one event *)
@@ -255,7 +288,7 @@ Inductive event :=
 
 (* _ModuleCache.forget_all_data *)
 Definition forget_all (s : state) : state :=
-  State (dsk s) (mods s) ∅ (flist s) (watched s) (cfg s).
+  State (dsk s) (mods s) ∅ (flist s) (watched s) (cfg s) (clock s).
 
 (* FilteredResourceObserver._perform_changes composed with PyCore's callback
    (_ModuleCache._invalidate_resource): [chg], [mov], [cre] are the members of _Changes.changes,
@@ -272,10 +305,10 @@ Definition apply_changes (chg mov cre : list N -> bool) (s : state) : state :=
         (if hit then ∅ else cells s)
         (flist s)
         (map_imap (fun r w =>
-                     if mov r then (if in_mods s r then None else Some WNone)
-                     else if chg r || cre r then Some (stampw (dsk s) r)
+                     if mov r then (if in_mods s r then None else Some None)
+                     else if chg r || cre r then Some (stampw s r)
                      else Some w) (watched s))
-        (cfg s).
+        (cfg s) (clock s).
 
 Definition ev_chg (e : event) (r : path) : bool :=
   match e with
@@ -297,14 +330,14 @@ Definition ev_cre (e : event) (r : path) : bool :=
   end.
 
 Definition add_mod (s : state) (p : path) (v : parsed) : state :=
-  State (dsk s) (<[p := v]> (mods s)) (cells s) (flist s) (<[p := stampw (dsk s) p]> (watched s)) (cfg s).
+  State (dsk s) (<[p := v]> (mods s)) (cells s) (flist s) (<[p := stampw s p]> (watched s)) (cfg s) (clock s).
 
 (* _ModuleCache.get_pymodule for a file: a module with syntax errors raises and is not cached *)
 Definition load_file (s : state) (p : path) : state * bool :=
   match mods s !! p with
   | Some _ => (s, true)
   | None => match dsk s !! p with
-            | Some (File c) => if cok c then (add_mod s p (PFile c), true) else (s, false)
+            | Some (File c _) => if cok c then (add_mod s p (PFile c), true) else (s, false)
             | _ => (s, false)
             end
   end.
@@ -314,10 +347,10 @@ Definition load (s : state) (p : path) : state * bool :=
   match mods s !! p with
   | Some _ => (s, true)
   | None => match dsk s !! p with
-            | Some (File _) => load_file s p
-            | Some Dir =>
+            | Some (File _ _) => load_file s p
+            | Some (Dir _) =>
                 let i := p ++ [init_seg] in
-                let s1 := match dsk s !! i with Some (File _) => (load_file s i).1 | _ => s end in
+                let s1 := match dsk s !! i with Some (File _ _) => (load_file s i).1 | _ => s end in
                 (add_mod s1 p (PPkg None), true)
             | None => (s, false)
             end
@@ -328,13 +361,13 @@ Definition load (s : state) (p : path) : state * bool :=
 Definition soa_changed (s : state) (p : path) : state :=
   if soa s && is_py_seg (last_seg p) then
     match dsk s !! p with
-    | Some (File _) => let '(s1, ok) := load_file s p in if ok then forget_all s1 else s
+    | Some (File _ _) => let '(s1, ok) := load_file s p in if ok then forget_all s1 else s
     | _ => s
     end
   else s.
 
 Definition set_flist (s : state) (l : option (gset (list N))) : state :=
-  State (dsk s) (mods s) (cells s) l (watched s) (cfg s).
+  State (dsk s) (mods s) (cells s) l (watched s) (cfg s) (clock s).
 
 (* project.observers in registration order: _FileListCacher, PyCore.observer, the SOA observer *)
 Definition handle (s : state) (e : event) : state :=
@@ -348,7 +381,7 @@ Definition handle (s : state) (e : event) : state :=
 (* a change made through rope = the same change of the disk + the event *)
 Definition event_of (d : disk) (x : xop) : event :=
   match x with
-  | XWrite p _ => EChanged p
+  | XWrite p _ _ => EChanged p
   | XCreate p _ => ECreated p
   | XRemove p => ERemoved p (disdir d p)
   | XMove p q => EMoved p q (disdir d p)
@@ -364,33 +397,40 @@ Definition move_raises (s : state) (x : xop) : bool :=
   match x with
   | XMove p q =>
       negb (fix_move (cfg s)) && disdir (dsk s) p &&
-      existsb (fun kw : list N * wstate => contains p kw.1 && negb (dexists (dsk s) kw.1))
+      existsb (fun kw : list N * option ind => contains p kw.1 && negb (dexists (dsk s) kw.1))
               (map_to_list (watched s))
   | _ => false
   end.
 
+(* a write through rope always gets a new modification time *)
+Definition fresh_x (x : xop) : xop := match x with XWrite p c _ => XWrite p c false | _ => x end.
+
 Definition rstep (s : state) (x : xop) : state :=
+  let x := fresh_x x in
   if xguard (dsk s) x then
     if move_raises s x then set_flist (xstep s x) None
     else handle (xstep s x) (event_of (dsk s) x)
   else s.
 
-(* ------------------------------------------------------------------- project.validate(root) *)
-Definition w_gone (s : state) (r : path) : bool := is_watched s r && negb (dexists (dsk s) r).
-Definition w_stale (s : state) (r : path) : bool :=
-  bool_decide (watched s !! r = Some WStale) && dexists (dsk s) r.
-Definition w_created (s : state) (r : path) : bool :=
-  bool_decide (watched s !! r = Some WNone) && dexists (dsk s) r.
-(* some watched child of P is gone or stale: _update_changes_caused_by_moved/_changed add the parent *)
-Definition w_child_hit (s : state) (P : path) : bool :=
-  existsb (fun kw : list N * wstate => child_of P kw.1 && (w_gone s kw.1 || w_stale s kw.1))
+(* ----------------------------------------------------------------- project.validate(folder) *)
+(* the resources validate(f) looks at: f itself and what lies below it *)
+Definition inside (f r : path) : bool := bool_decide (r = f) || contains f r.
+Definition w_gone (s : state) (f r : path) : bool := inside f r && is_watched s r && negb (dexists (dsk s) r).
+(* _is_changed: the stored indicator is not None and differs from the current (mtime, size) *)
+Definition w_stale (s : state) (f r : path) : bool := inside f r && out_of_date s r && dexists (dsk s) r.
+Definition w_created (s : state) (f r : path) : bool :=
+  inside f r && bool_decide (watched s !! r = Some None) && dexists (dsk s) r.
+(* some watched child of P is gone or out of date: _update_changes_caused_by_moved/_changed add the parent *)
+Definition w_child_hit (s : state) (f P : path) : bool :=
+  existsb (fun kw : list N * option ind => child_of P kw.1 && (w_gone s f kw.1 || w_stale s f kw.1))
           (map_to_list (watched s)).
-Definition v_chg (s : state) (r : path) : bool :=
-  is_watched s r && dexists (dsk s) r && (w_stale s r || w_child_hit s r).
+Definition v_chg (s : state) (f r : path) : bool :=
+  is_watched s r && dexists (dsk s) r && (w_stale s f r || w_child_hit s f r).
 
-Definition validate (s : state) : state :=
-  let s' := apply_changes (v_chg s) (w_gone s) (w_created s) (set_flist s None) in
+Definition validate_in (f : path) (s : state) : state :=
+  let s' := apply_changes (v_chg s f) (w_gone s f) (w_created s f) (set_flist s None) in
   if fix_forget (cfg s) then forget_all s' else s'.
+Definition validate (s : state) : state := validate_in [] s.
 
 (* ----------------------------------------------------------------------------------- queries *)
 Inductive query :=
@@ -410,9 +450,9 @@ Proof. solve_decision. Defined.
 Definition view (v : parsed) : option content := match v with PFile c => Some c | PPkg _ => None end.
 
 Definition set_cell (s : state) (k : list N * N) (t : path) : state :=
-  State (dsk s) (mods s) (<[k := t]> (cells s)) (flist s) (watched s) (cfg s).
+  State (dsk s) (mods s) (<[k := t]> (cells s)) (flist s) (watched s) (cfg s) (clock s).
 Definition set_mod (s : state) (p : path) (v : parsed) : state :=
-  State (dsk s) (<[p := v]> (mods s)) (cells s) (flist s) (watched s) (cfg s).
+  State (dsk s) (<[p := v]> (mods s)) (cells s) (flist s) (watched s) (cfg s) (clock s).
 
 Definition run_query (s : state) (q : query) : state * answer :=
   match q with
@@ -456,13 +496,13 @@ Definition run_query (s : state) (q : query) : state * answer :=
 (* ------------------------------------------------------------------------------------ steps *)
 Inductive op :=
 | ORope (x : xop)                 (* a primitive change made through rope *)
-| OExternal (xs : list xop)       (* changes behind rope's back, followed by project.validate() *)
+| OExternal (f : path) (xs : list xop)   (* changes behind rope's back, then project.validate(f) *)
 | OQuery (q : query).
 
 Definition step (s : state) (o : op) : state :=
   match o with
   | ORope x => rstep s x
-  | OExternal xs => validate (foldl xstep s xs)
+  | OExternal f xs => validate_in f (foldl xstep s xs)
   | OQuery q => (run_query s q).1
   end.
 
@@ -475,21 +515,22 @@ Definition raises (s : state) (o : op) : bool :=
 (* ---------------------------------------------------------------------------------- coherence *)
 Definition matches (d : disk) (r : path) (v : parsed) : Prop :=
   match v with
-  | PFile c => d !! r = Some (File c) /\ cok c = true
-  | PPkg ch => d !! r = Some Dir /\ match ch with Some l => l = children d r | None => True end
+  | PFile c => kind_of <$> d !! r = Some (Some c) /\ cok c = true
+  | PPkg ch => kind_of <$> d !! r = Some None /\ match ch with Some l => l = children d r | None => True end
   end.
 Global Instance matches_dec d r v : Decision (matches d r v).
 Proof. destruct v as [c|[l|]]; cbn; apply _. Defined.
 
 (* every cached module is the parse of the file on disk, and is watched with a current indicator *)
 Definition C_mods (s : state) : Prop :=
-  map_Forall (fun r v => watched s !! r = Some WCur /\ matches (dsk s) r v) (mods s).
+  map_Forall (fun r v => is_Some (stampw s r) /\ watched s !! r = Some (stampw s r) /\ matches (dsk s) r v)
+             (mods s).
 (* the cached file list is the file list *)
 Definition C_flist (s : state) : Prop :=
   match flist s with Some l => l = files_of (dsk s) | None => True end.
 (* no stored indicator is out of date *)
 Definition C_watched (s : state) : Prop :=
-  map_Forall (fun r w => w <> WStale /\ (w = WCur -> dexists (dsk s) r = true)) (watched s).
+  map_Forall (fun r w => match w with Some i => stampw s r = Some i | None => True end) (watched s).
 (* concluded cells only point to cached modules ... *)
 Definition C_cells (s : state) : Prop :=
   map_Forall (fun (k : list N * N) t => is_Some (mods s !! t)) (cells s).
@@ -505,6 +546,8 @@ Definition CacheCoherent (s : state) : Prop :=
   wf_disk (dsk s) /\ C_mods s /\ C_flist s /\ C_watched s /\ C_cells s.
 Definition Coherent (s : state) : Prop := CacheCoherent s /\ C_resolution s.
 
+Global Instance C_watched_dec s : Decision (C_watched s).
+Proof. unfold C_watched. apply map_Forall_dec. intros r [i|]; apply _. Defined.
 Global Instance C_flist_dec s : Decision (C_flist s).
 Proof. unfold C_flist; destruct (flist s); apply _. Defined.
 Global Instance CacheCoherent_dec s : Decision (CacheCoherent s).
@@ -523,6 +566,46 @@ Definition resolution_unaffected (s : state) (o : op) : Prop :=
 Global Instance resolution_unaffected_dec s o : Decision (resolution_unaffected s o).
 Proof. unfold resolution_unaffected; apply _. Defined.
 
+(* ------------------------------------------------------------------ [indicator_sound], precisely *)
+(* what a watcher of r can see of the tree: what r is (a file with this content / a folder) and, for a
+   package, its child list — everything but modification times *)
+Definition rview (d : disk) (r : path) : option (option content) * gset (list N) :=
+  (kind_of <$> d !! r, children d r).
+(* between s and s': a watched resource whose indicator is (again) the stored one has not been modified.
+   Contrapositive: every modification of a watched resource changes at least one component of its
+   (mtime, size) indicator, relative to the indicator rope stored. *)
+Definition ind_sound (s s' : state) : Prop :=
+  map_Forall (fun r w => match w with
+                         | Some i => cur_ind (cfg s) (dsk s') r = Some i -> rview (dsk s') r = rview (dsk s) r
+                         | None => True
+                         end) (watched s).
+(* the same for the full pair, whatever indicator the variant of the code compares, and relative to the
+   actual pair before the batch: every modification of a watched resource changes its mtime or its size *)
+Definition pair_sound (s s' : state) : Prop :=
+  map_Forall (fun r (_ : option ind) =>
+                ind_of_node true <$> dsk s' !! r = ind_of_node true <$> dsk s !! r ->
+                rview (dsk s') r = rview (dsk s) r) (watched s).
+Global Instance pair_sound_dec s s' : Decision (pair_sound s s').
+Proof. unfold pair_sound. apply _. Defined.
+(* every path the modification names lies strictly below f *)
+Definition xunder (f : path) (x : xop) : bool :=
+  match x with
+  | XWrite p _ _ | XCreate p _ | XRemove p => contains f p
+  | XMove p q => contains f p && contains f q
+  end.
+(* the side condition of a step "changes behind rope's back, then validate(f)": f is an existing folder,
+   the changes are confined to f, and they are visible in the indicators *)
+Definition ext_ok (s : state) (o : op) : Prop :=
+  match o with
+  | OExternal f xs =>
+      disdir (dsk s) f = true /\ forallb (xunder f) xs = true /\ ind_sound s (foldl xstep s xs)
+  | _ => True
+  end.
+Global Instance ind_sound_dec s s' : Decision (ind_sound s s').
+Proof. unfold ind_sound. apply map_Forall_dec. intros r [i|]; apply _. Defined.
+Global Instance ext_ok_dec s o : Decision (ext_ok s o).
+Proof. destruct o; cbn; apply _. Defined.
+
 (* --------------------------------------------------------------------------- whole histories *)
 (* the queries that do not go through module lookup *)
 Definition lookup_free (q : query) : bool := match q with QResolve _ _ => false | _ => true end.
@@ -531,18 +614,30 @@ Definition lookup_free (q : query) : bool := match q with QResolve _ _ => false 
 Fixpoint admissible (s : state) (ops : list op) : Prop :=
   match ops with
   | [] => True
-  | o :: r => raises s o = false /\ resolution_unaffected s o /\ admissible (step s o) r
+  | o :: r => raises s o = false /\ ext_ok s o /\ resolution_unaffected s o /\ admissible (step s o) r
   end.
 Fixpoint no_raise (s : state) (ops : list op) : Prop :=
   match ops with
   | [] => True
-  | o :: r => raises s o = false /\ no_raise (step s o) r
+  | o :: r => raises s o = false /\ ext_ok s o /\ no_raise (step s o) r
+  end.
+(* every batch of changes behind rope's back is confined to the validated folder and visible in the indicators *)
+Fixpoint ext_sound (s : state) (ops : list op) : Prop :=
+  match ops with
+  | [] => True
+  | o :: r => ext_ok s o /\ ext_sound (step s o) r
   end.
 
 (* boolean form, for computed examples and for the correspondence runner *)
 Fixpoint admissible_b (s : state) (ops : list op) : bool :=
   match ops with
   | [] => true
-  | o :: r => negb (raises s o) && bool_decide (resolution_unaffected s o) && admissible_b (step s o) r
+  | o :: r => negb (raises s o) && bool_decide (ext_ok s o) && bool_decide (resolution_unaffected s o)
+              && admissible_b (step s o) r
+  end.
+Fixpoint ext_sound_b (s : state) (ops : list op) : bool :=
+  match ops with
+  | [] => true
+  | o :: r => bool_decide (ext_ok s o) && ext_sound_b (step s o) r
   end.
 
